@@ -267,6 +267,39 @@ pub fn hand_eval(t: &MarkerTree, e: &CEnv) -> Option<bool> {
     go(t, e, &extras)
 }
 
+/// operands on ONE variable with IDENTICAL partitions (three ranges around one constant, children among TRUE / FALSE / an extra / its
+/// negation): every ordered pair under `and` / `or`. The result is again such a node, with the children combined pointwise — built
+/// directly from atoms it must be the same marker (C03), and the diagram must stay reduced: adjacent ranges with different children (C20)
+fn same_partition_pairs(out: &mut Out, prop: &str) {
+    #[derive(Clone, Copy, PartialEq)] enum K { T, F, X, N }
+    let kand = |a: K, b: K| match (a, b) { (K::F, _) | (_, K::F) => K::F, (K::T, x) | (x, K::T) => x, (x, y) if x == y => x, _ => K::F };
+    let kor = |a: K, b: K| match (a, b) { (K::T, _) | (_, K::T) => K::T, (K::F, x) | (x, K::F) => x, (x, y) if x == y => x, _ => K::T };
+    let all = [K::T, K::F, K::X, K::N];
+    for (is_ver, key, c) in [(true, 1usize, "3.8"), (false, 1usize, "m")] {
+        let cmp = |op: usize| if is_ver { Term::V(key, op, c.to_string()) } else { Term::S(key, [0usize, 0, 4, 0, 2][op], c.to_string()) };   // 0 ==, 2 <, 4 >
+        let kterm = |k: K| match k { K::T => Term::T, K::F => Term::F, K::X => Term::X(false, "a".into()), K::N => Term::X(true, "a".into()) };
+        let node = |ks: [K; 3]| Term::or(Term::or(Term::and(cmp(2), kterm(ks[0])), Term::and(cmp(0), kterm(ks[1]))), Term::and(cmp(4), kterm(ks[2])));
+        let mut nodes: Vec<([K; 3], MarkerTree)> = Vec::new();
+        for a in all { for b in all { for c2 in all {
+            let Some(m) = try_build(out, prop, &node([a, b, c2])) else { return };
+            nodes.push(([a, b, c2], m));
+        } } }
+        for (ka, ma) in &nodes { for (kb, mb) in &nodes {
+            for is_and in [true, false] {
+                out.evaluations += 1;
+                let mut r = ma.clone();
+                if is_and { r.and(mb.clone()); } else { r.or(mb.clone()); }
+                let f = |i: usize| if is_and { kand(ka[i], kb[i]) } else { kor(ka[i], kb[i]) };
+                let expect = nodes.iter().find(|(k, _)| k[0] == f(0) && k[1] == f(1) && k[2] == f(2)).map(|(_, m)| m.clone()).unwrap();
+                let input = serde_json::json!({"key": if is_ver { "python_full_version" } else { "os_name" }, "constant": c, "op": if is_and { "and" } else { "or" }, "left": dump(ma), "right": dump(mb), "result": dump(&r), "expected": dump(&expect)});
+                if prop == "C20" { if let Err(e) = wf_check(&r, None) { out.oracle_fail("C20", &format!("combining two nodes with identical partitions gives a diagram that is not reduced: {e}"), input.clone()); } }
+                if prop == "C03" && r != expect { out.oracle_fail("C03", "combining two nodes with identical partitions gives a marker different from the same function built from atoms", input); }
+            }
+        } }
+        out.stat_n("same_partition_pairs", (nodes.len() * nodes.len() * 2) as u64);
+    }
+}
+
 // ---------------------------------------------------------------------------------------------
 // abstract valuations (C03 / C13): one region index per range variable over the joint bound
 // grid, one free boolean per in / contains / extra variable
@@ -504,6 +537,7 @@ pub fn run(out: &mut Out, tier: &str, seed: u64, prop: &str) {
     let n_ops = if big { 6000 } else { 1200 };
     match prop {
         "C20" => {
+            same_partition_pairs(out, "C20");
             // every reachable marker: WF by the property text on the implementation, WF by the Lean
             // predicate on the dump, hand-walk = evaluate; every operation one step from literals
             for it in &items {
@@ -885,6 +919,7 @@ pub fn run(out: &mut Out, tier: &str, seed: u64, prop: &str) {
                     out.oracle_fail("C03", &format!("law `{name}`: two construction paths of the same function give different markers"), serde_json::json!({"left": l.line(), "right": r.line(), "left_dump": dump(&x), "right_dump": dump(&y)}));
                 }
             }
+            same_partition_pairs(out, "C03");
             // (2b) spellings of one comparison: every operator against its negated twin, the wildcard and `~=` forms
             //      against their range forms, literals with and without trailing zero segments — identical markers
             {
